@@ -24,7 +24,10 @@ use std::{collections::BTreeSet, path::Path};
 // (a) metadata round trip
 // ---------------------------------------------------------------------------------------------
 
-/// (layout size, position) pairs: 1..4 columns, every position.
+/// (layout size, position) pairs: 1..4 columns, every position; plus wide layouts around the
+/// points where the textual column index gains a digit (10, 100) and the u8 maximum, at the first,
+/// middle and last positions (a position-sensitive loader, e.g. one ordering `col10` before
+/// `col2`, only shows with more than 10 columns).
 fn layouts() -> Vec<(usize, usize)> {
 	let mut v = vec![];
 	for n in 1..=4 {
@@ -32,7 +35,19 @@ fn layouts() -> Vec<(usize, usize)> {
 			v.push((n, p));
 		}
 	}
+	for n in [10usize, 11, 12, 13, 21, 100, 101, 255] {
+		let mut ps = vec![0, 1, 2, n / 2, n - 2, n - 1];
+		ps.sort();
+		ps.dedup();
+		for p in ps {
+			v.push((n, p));
+		}
+	}
 	v
+}
+
+pub fn roundtrip_total() -> u64 {
+	(layouts().len() * N_COMBOS) as u64
 }
 
 fn fresh_version(scr: &Scratch) -> u32 {
@@ -268,7 +283,8 @@ fn mismatch_attempt(rep: &mut Report, st: &Stored, req: &[ColumnOptions], mode: 
 }
 
 fn stored_layout(rng: &mut Rng, v: usize, valid: &[usize]) -> (Vec<ColumnOptions>, usize) {
-	let n = rng.range(1, 3) as usize;
+	// every fifth stored configuration lives in a wide database (more than 10 columns)
+	let n = if v % 5 == 4 { rng.range(10, 13) as usize } else { rng.range(1, 3) as usize };
 	let p = rng.usize(n);
 	let mut cols: Vec<ColumnOptions> = (0..n).map(|_| combo(*rng.pick(valid))).collect();
 	cols[p] = combo(v);
@@ -374,6 +390,20 @@ fn mismatch_stored(ctx: &Ctx, rep: &mut Report, v: usize, seed: u64, logs_pendin
 			return
 		}
 		if cols.len() >= 2 {
+			// the stored options in another order: two differing columns swapped
+			for _ in 0..2 {
+				let a = rng.usize(cols.len());
+				let b = rng.usize(cols.len());
+				if cols[a] == cols[b] {
+					continue
+				}
+				let mut req = cols.clone();
+				req.swap(a, b);
+				rep.count("mismatch_swapped_columns", 1);
+				if !attempt(rep, &mut st, req, "swapped_columns".into(), N_COMBOS as i64) {
+					return
+				}
+			}
 			for _ in 0..3 {
 				let mut req = cols.clone();
 				for c in req.iter_mut() {
@@ -847,7 +877,8 @@ pub fn admin_case(ctx: &Ctx, rep: &mut Report, case_seed: u64) {
 	let verbose = ctx.replay.is_some() || ctx.verbose;
 	let mut rng = Rng::new(case_seed);
 	let pal = opts::palette();
-	let n = rng.range(1, 4) as usize;
+	// one case in eight administers a wide database (10-12 columns)
+	let n = if rng.chance(1, 8) { rng.range(10, 12) as usize } else { rng.range(1, 4) as usize };
 	let cols: Vec<ColumnOptions> = (0..n).map(|_| rng.pick(&pal).clone()).collect();
 	let logs = rng.chance(1, 2);
 	let big = rng.chance(1, 4);
@@ -974,15 +1005,15 @@ pub fn spec() -> pv::Spec {
 		"C17",
 		"exploration",
 		"Three parts. (a) roundtrip: every one of the 2^7 x 3 = 384 column-option combinations (valid and invalid) is placed at \
-		 every position of every 1..4-column layout (10 placements, remaining columns random combinations), written with \
+		 every position of every 1..4-column layout and at the first / middle / last positions of 10, 11, 12, 13, 21, 100, 101 and 255-column layouts (remaining columns random combinations), written with \
 		 Options::write_metadata and read with load_metadata: columns, salt and version must come back equal and re-writing \
-		 must give the same file (3840 cases, fully enumerated: counter roundtrip_cases). (b) mismatch: for every valid stored \
-		 column configuration (160) a small database of 1-3 columns is created (one in four as a byte image holding unreplayed \
+		 must give the same file (fully enumerated: counter roundtrip_cases). (b) mismatch: for every valid stored \
+		 column configuration (160) a small database of 1-3 columns (every fifth: 10-13 columns) is created (one in four as a byte image holding unreplayed \
 		 logs) and opened with every other valid configuration of that column (all 160 x 159 ordered pairs, fully enumerated: \
-		 counter mismatch_pairs), with one more / one fewer column and with several columns changed, through Db::open, \
+		 counter mismatch_pairs), with one more / one fewer column, with two differing columns swapped and with several columns changed, through Db::open, \
 		 open_or_create and open_read_only: each attempt must return Err and leave the (name, length, content hash) of every \
 		 file unchanged (only the appearance of an empty lock file is ignored); plus opening missing paths and an empty \
-		 directory. (c) admin: seeded databases of 1-4 columns drawn from 17 kinds (hash plain/preimage/rc/uniform/append-only, \
+		 directory. (c) admin: seeded databases of 1-4 (one in eight: 10-12) columns drawn from 17 kinds (hash plain/preimage/rc/uniform/append-only, \
 		 btree, multitree; compression variants), filled by 3..10 (thorough ..30) transactions, cleanly closed or copied while \
 		 the last 1-3 commits were only in flushed logs (multitree columns additionally hold a node shared by two trees, so \
 		 that refcount_* files exist); a chain of 1-3 operations out of add_column / drop_last_column / reset_column(None|Some) \
@@ -994,7 +1025,8 @@ pub fn spec() -> pv::Spec {
 		 distinct_nontrivial = distinct (stored configuration, changed field | count change) pairs of part (b) + distinct \
 		 (operation, clean|pending logs, affected column kind, column count) tuples of part (c) + opened (missing-case, mode) pairs.",
 	)
-	.require("roundtrip_cases", 3840)
+	.require("roundtrip_cases", roundtrip_total())
+	.require("mismatch_swapped_columns", 50)
 	.require("mismatch_pairs", 160 * 159)
 	.require("mismatch_control_open_ok", 160)
 	.require("mismatch_stored_with_pending_logs", 10)
